@@ -108,6 +108,9 @@ def option_set(rng, fs, f_range, k):
             del th['min_n_cycles']
         opts['threshold_kwargs'] = th
         opts['burst_kwargs'] = None
+        if k % 10 == 7:
+            # amplitude-detection options left over from a dual-threshold run (they are documented to matter only for burst_method='amp')
+            opts['burst_kwargs'] = {'amp_threshes': (1.0, 2.0), 'min_n_cycles': int(rng.integers(0, 7))}
     else:
         route = (k // 4) % 4            # min_n_cycles via thresholds / burst options / both / neither
         th = {'burst_fraction_threshold': float(rng.choice([0.25, 0.5, 0.75, 1.0, 1.0]))}
